@@ -161,6 +161,7 @@ class Ctx:
         self.BB = z3.DeclareSort("BlackBoxObj")
         self.lits = {}
         self.templates = {}
+        self.template_inverse = {}
         self.axioms = []
         self.obligations = []
         self.card_fns = {}
@@ -211,6 +212,19 @@ class Ctx:
                 x, y = self.fresh_name("ix"), self.fresh_name("iy")
                 self.axioms.append(z3.ForAll([x, y], z3.Implies(f(x) == f(y), x == y)))
                 self.strfacts.append(("inj", parts))
+                inv1 = z3.Function("inv_" + f.name(), self.Name, self.Name)
+                self.axioms.append(z3.ForAll([x], inv1(f(x)) == x))
+                self.template_inverse[parts] = inv1
+            if holes >= 2:
+                # a + SEP + x == a + SEP + y  =>  x == y   (equal leading holes: the rest is determined), and symmetrically
+                xs = [self.fresh_name("hx") for _ in range(holes)]
+                y = self.fresh_name("hy")
+                self.axioms.append(z3.ForAll(xs + [y], z3.Implies(f(*xs) == f(*(xs[:-1] + [y])), xs[-1] == y)))
+                self.axioms.append(z3.ForAll(xs + [y], z3.Implies(f(*xs) == f(*([y] + xs[1:])), xs[0] == y)))
+                self.strfacts.append(("inj-last-given-rest", parts))
+                inv = z3.Function("inv_" + f.name(), *([self.Name] * holes + [self.Name]))
+                self.axioms.append(z3.ForAll(xs, inv(*(xs[:-1] + [f(*xs)])) == xs[-1]))
+                self.template_inverse[parts] = inv
             for key, g in self.templates.items():
                 self._template_vs_template(parts, f, key, g)
             for s, c in self.lits.items():
